@@ -182,6 +182,9 @@ def spacing_nf(text: str) -> list[tuple[str, str]]:
                 if op[0] == pairs[k]:
                     break
             if op is not None and starts_line.get(idx):
+                ls0 = line_starts[line_of(op[1])]
+                if any(ss < ls0 < ee for (_, _, ss, ee) in ls):
+                    continue  # the opener's line begins inside a multi-line token: its indentation says nothing
                 want = line_indent(line_of(op[1]))
                 if col_of(s) != want:
                     bad.append(("closing-delimiter-indent", f"{t} at column {col_of(s)}, opener line indent {want}"))
